@@ -126,3 +126,20 @@ def check_one(prop):
         res['discharged'] = len(thms)
     res['closed_count'] = closed
     return res
+
+
+def coqchk(prop):
+    """Independent re-check of the compiled closure of Props/<prop>.v (and <prop>b.v) with coqchk -o.
+    -> dict(ok, axioms, summary)"""
+    mods = ['CG.Props.' + prop]
+    if os.path.exists(os.path.join(paths.COQ, 'theories', 'Props', prop + 'b.v')):
+        mods.append('CG.Props.' + prop + 'b')
+    p = subprocess.run(['timeout', '3000', 'coqchk', '-silent', '-o', '-Q', 'theories', 'CG', '-Q', 'gen', 'CGgen'] + mods,
+                       cwd=paths.COQ, stdout=subprocess.PIPE, stderr=subprocess.STDOUT)
+    out = p.stdout.decode('utf-8', 'replace')
+    m = re.search(r'\* Axioms:(.*?)\n\s*\n\* Constants', out, re.S)
+    axioms = m.group(1).strip() if m else '?'
+    clean = all(('* %s: <none>' % k) in out or ('%s: <none>' % k) in out for k in
+                ('Axioms', 'Constants/Inductives relying on type-in-type', 'Constants/Inductives relying on unsafe (co)fixpoints',
+                 'Inductives whose positivity is assumed'))
+    return dict(ok=(p.returncode == 0 and clean), axioms=axioms, summary=out[-1200:])
